@@ -338,6 +338,30 @@ class Symbols:
                 return _cmp(e.ops[0], a, b)
             except Exception:
                 return Unknown
+        if isinstance(e, ast.BoolOp):
+            last: Any = Unknown
+            for v in e.values:
+                last = ev(v)
+                if last is Unknown:
+                    return Unknown
+                if isinstance(e.op, ast.And) and not last:
+                    return last
+                if isinstance(e.op, ast.Or) and last:
+                    return last
+            return last
+        if isinstance(e, ast.Compare) and len(e.ops) > 1:
+            left = ev(e.left)
+            for op, c in zip(e.ops, e.comparators):
+                right = ev(c)
+                if left is Unknown or right is Unknown:
+                    return Unknown
+                try:
+                    if not _cmp(op, left, right):
+                        return False
+                except Exception:
+                    return Unknown
+                left = right
+            return True
         if isinstance(e, ast.IfExp):
             t = ev(e.test)
             if t is Unknown:
